@@ -13,4 +13,6 @@ import MdVerif.Props.C11Census
 #print axioms MdVerif.Census.C11_allow_lists_not_stale
 #print axioms MdVerif.Census.C12_no_unlisted_shared_write
 #print axioms MdVerif.Census.C12_memo_cells
+#print axioms MdVerif.Census.C12_external_bases
+#print axioms MdVerif.Census.C12_no_package_class_unresolved
 #print axioms MdVerif.Census.C12_shared_allow_not_stale
